@@ -67,6 +67,12 @@ CHECKS = {
         text="Sandboxes with nested directories, links to files and directories inside and outside the starting points, dangling links; state-independent expressions leaving some matched directories non-empty; follow modes -P/-H/-L; 1-2 starting points incl. a symlinked one. Successful removals in the strace log must equal the replayed ones in order, no other mutating syscall may occur, the after-snapshot must equal the twin's, and exit status/diagnostic/truth must reflect failed removals.",
         note="Tests whose truth depends on earlier deletions (-empty, -links, -newer*) not used.",
         ref="DESIGN.md section 4 C10"),
+    "C12": dict(
+        technique="runtime monitoring: differential oracle over executions of the real matcher objects (in-process), real symlinks (-lname) and the binary: glibc fnmatch(3) in two locales AND an independent POSIX matcher must agree for a pair to be judged",
+        level="exploration",
+        text="Bounded-exhaustive: every pattern of length <=3 (quick) / <=4 (thorough) over {a b * ? [ ] ! \\ - .} against every subject of length <=3/<=4 over a 10-symbol alphabet, for -name -iname -path -ipath; structured random patterns (regex metacharacters as literals, escapes, bracket expressions with negation, leading ], ranges, classes, '[' members, trailing -, stray [ ] !, lone trailing backslash) with subjects sampled from the pattern and mutated (prefix, suffix, extension, substitution, case) for all six spellings; -lname/-ilname on real symbolic links; -name/-iname through the find binary on real files. Quick ~5M judged pairs.",
+        note="Judged only where glibc(C.UTF-8) = glibc(C) = lib/posixfn.py; out of domain (counted): backslash or mid-list '-' inside brackets, '[^', non-alphanumeric ranges, collating/equivalence syntax, [:upper:]/[:lower:] under -i forms, classes against non-ASCII characters, subjects '.'/'..' for -name.",
+        ref="DESIGN.md section 4 C12"),
     "C19": dict(
         technique="runtime monitoring: scripted recorder outcomes, exit status and number of invocations started vs the documented function; bounded-exhaustive over outcome classes",
         level="exploration",
